@@ -9,9 +9,10 @@ checks=("$@")
 out=/verif/seeded/$name
 mkdir -p $out
 cp $src/patch.diff $out/patch.diff
-demo=$(ls $src/tests/seeded_*.rs | head -1)
+demo=$(ls $src/tests/seeded*_c*.rs | head -1)
 cp $demo $out/
 cp $src/NOTES.md $out/NOTES.md 2>/dev/null || true
+if [ "${SEED_PHASE:-both}" != "check" ]; then
 wt=/tmp/confirm-$name
 git -C /repo worktree remove --force $wt >/dev/null 2>&1
 git -C /repo worktree add -q --detach $wt HEAD || exit 2
@@ -27,6 +28,11 @@ suite=$(cargo test --offline 2>&1 | grep -E "^test result" | awk '{p+=$4; f+=$6}
 cd /verif
 git -C /repo worktree remove --force $wt
 echo "demo without change: $clean"; echo "demo with change:    $withp"; echo "existing suite with change: $suite"
+printf '%s\n%s\n%s\n' "$clean" "$withp" "$suite" > $out/.confirm
+fi
+[ "${SEED_PHASE:-both}" = "confirm" ] && exit 0
+{ read -r clean; read -r withp; read -r suite; } < $out/.confirm
+git -C /repo status --short | grep -q . && { echo "/repo is not clean"; exit 2; }
 # run the checks against /repo with the change applied
 git -C /repo apply $out/patch.diff || { echo "cannot apply to /repo"; exit 2; }
 declare -A res
@@ -35,6 +41,8 @@ for c in "${checks[@]}"; do
   res[$c]="$o"; echo "  $c: $o"
 done
 git -C /repo checkout -- .
+# evidence files written while the change was applied describe the changed tree: restore
+git -C /verif checkout -- evidence coq/Gen 2>/dev/null
 python3 - "$name" "$prop" "$clean" "$withp" "$suite" "${checks[@]}" <<PY
 import json, sys, subprocess, os
 name, prop, clean, withp, suite = sys.argv[1:6]
@@ -46,3 +54,4 @@ meta = dict(name=name, breaks_property=prop, demo_without_change=clean, demo_wit
 json.dump(meta, open("/verif/seeded/%s/meta.json" % name, "w"), indent=1)
 PY
 for c in "${checks[@]}"; do echo "$c ${res[$c]}"; done > $out/check_results.txt
+rm -f $out/.confirm
